@@ -1,6 +1,190 @@
-import RucteModel
+import RucteModel.Statics
+import RucteProofs.Hash
 
-/-! # C07 — placeholder: theorems are added as they are proved. -/
+/-!
+# C07 — static URL names are a pure function of file name and content hash
+
+`checksumSlugWith hash` = `BASE64_URL_SAFE_NO_PAD.encode(&hash(data)[..6])`; the theorems hold
+for every 16-byte hash function (`md5` is one: `md5_length`).  "Changing any byte changes the
+name" is exactly "unless the hash collides on its first 48 bits" (`slug_eq_iff`).
+-/
 namespace Ructe.C07
-theorem placeholder : True := trivial
+open Nom
+
+def isUrlSafe (c : UInt8) : Bool := isAlpha c || isDigit c || c = 45 || c = 95
+
+/-- `name_and_ext` splits the file name at its last dot: stem ++ "." ++ ext, no dot in ext, stem non-empty -/
+theorem nameAndExt_shape (f name ext : Bytes) (h : nameAndExt f = some (name, ext)) :
+    f = name ++ [46] ++ ext ∧ (46 : UInt8) ∉ ext ∧ name ≠ [] := by
+  unfold nameAndExt at h
+  split at h
+  · cases h
+  · split at h
+    · cases h
+    · cases h
+    · rename_i i hne hi
+      obtain ⟨hlt, hsplit, hno⟩ := Hash.lastDot_spec f i hi
+      simp only [Option.some.injEq, Prod.mk.injEq] at h
+      obtain ⟨rfl, rfl⟩ := h
+      refine ⟨hsplit, hno, ?_⟩
+      intro hnil
+      have hlen := congrArg List.length hnil
+      simp only [List.length_take, List.length_nil] at hlen
+      have : i ≠ 0 := hne
+      omega
+
+theorem b64_val_char : ∀ n < 64, b64Val? (b64Char n) = some n := by
+  exact Hash.b64_val_char
+
+theorem b64Char_urlsafe : ∀ n < 64, isUrlSafe (b64Char n) = true := by
+  decide
+
+/-- base64url without padding is invertible on 6-byte inputs -/
+theorem base64_decode_encode6 (a b c d e f : UInt8) :
+    base64UrlDecode (base64Url [a, b, c, d, e, f]) = some [a, b, c, d, e, f] := by
+  exact Hash.decode6 a b c d e f
+
+theorem base64_6_injective (x y : Bytes) (hx : x.length = 6) (hy : y.length = 6)
+    (h : base64Url x = base64Url y) : x = y := by
+  obtain ⟨a, b, c, d, e, f, rfl⟩ := Hash.length_six hx
+  obtain ⟨a', b', c', d', e', f', rfl⟩ := Hash.length_six hy
+  have h' := congrArg base64UrlDecode h
+  rw [Hash.decode6, Hash.decode6] at h'
+  exact Option.some.inj h'
+
+/-- the slug has 8 characters of `[A-Za-z0-9_-]` -/
+theorem slug_shape (hash : Bytes → Bytes) (data : Bytes) (h : 6 ≤ (hash data).length) :
+    (checksumSlugWith hash data).length = 8 ∧ ∀ c ∈ checksumSlugWith hash data, isUrlSafe c = true := by
+  have hl : ((hash data).take 6).length = 6 := by simp only [List.length_take]; omega
+  obtain ⟨a, b, c, d, e, f, hx⟩ := Hash.length_six hl
+  have ha := a.toNat_lt
+  have hb := b.toNat_lt
+  have hc := c.toNat_lt
+  have hd := d.toNat_lt
+  have he := e.toNat_lt
+  have hf := f.toNat_lt
+  unfold checksumSlugWith
+  rw [hx]
+  simp only [base64Url, List.cons_append, List.nil_append, List.length_cons, List.length_nil,
+    List.mem_cons, List.not_mem_nil, or_false, true_and]
+  intro ch hch
+  rcases hch with rfl | rfl | rfl | rfl | rfl | rfl | rfl | rfl <;>
+    exact b64Char_urlsafe _ (by omega)
+
+/-- two contents get the same slug iff the first 48 bits of their hashes agree -/
+theorem slug_eq_iff (hash : Bytes → Bytes) (d₁ d₂ : Bytes) (h₁ : 6 ≤ (hash d₁).length) (h₂ : 6 ≤ (hash d₂).length) :
+    checksumSlugWith hash d₁ = checksumSlugWith hash d₂ ↔ (hash d₁).take 6 = (hash d₂).take 6 := by
+  constructor
+  · intro h
+    exact base64_6_injective _ _ (by simp only [List.length_take]; omega)
+      (by simp only [List.length_take]; omega) h
+  · intro h
+    unfold checksumSlugWith
+    rw [h]
+
+theorem md5_length (data : Bytes) : (md5 data).length = 16 := by
+  exact Hash.md5_length data
+
+/-- the URL name a hashed entry point publishes: `<stem>-<slug of the complete content>.<ext>`,
+whatever the directory, the state of the handler or the way the content is embedded -/
+def urlName (fname bytes : Bytes) : Option Bytes :=
+  (nameAndExt fname).map fun (n, e) => n ++ [45] ++ checksumSlug bytes ++ [46] ++ e
+
+theorem urlName_shape (ue ua : Nat → Bool) (s : Statics) (path bytes : Bytes) (content : Content)
+    (name ext : Bytes) (h : nameAndExt (baseName path) = some (name, ext)) :
+    (s.addHashed ue ua path bytes content).namesR =
+      btInsert (name ++ [45] ++ checksumSlug bytes ++ [46] ++ ext) (mangle ua (name ++ [95] ++ ext)) s.namesR ∧
+    (s.addHashed ue ua path bytes content).names =
+      btInsert (mangle ua (name ++ [95] ++ ext)) (name ++ [45] ++ checksumSlug bytes ++ [46] ++ ext) s.names := by
+  simp only [Statics.addHashed, h, Statics.addStatic, and_self]
+
+/-- a file name without an extension is skipped (nothing is published) -/
+theorem no_ext_skipped (ue ua : Nat → Bool) (s : Statics) (path bytes : Bytes) (content : Content)
+    (h : nameAndExt (baseName path) = none) : s.addHashed ue ua path bytes content = s := by
+  simp only [Statics.addHashed, h]
+
+/- ORIGINAL STATEMENT (false as written, kept for the record):
+
+/-- pure: same file name and same bytes ⇒ same published name, from any location, in any handler
+state, through `add_file` (`.file`) or `add_file_data` (`.data`) -/
+theorem urlName_pure (ue ua : Nat → Bool) (s s' : Statics) (path path' bytes : Bytes) (c c' : Content)
+    (hb : baseName path = baseName path') (k : Bytes) :
+    (∃ v, (s.addHashed ue ua path bytes c).namesR = btInsert k v s.namesR) ↔
+    (∃ v, (s'.addHashed ue ua path' bytes c').namesR = btInsert k v s'.namesR)
+
+"`namesR` after = `btInsert k v` of `namesR` before" does not identify the inserted key: `btInsert`
+is idempotent, so the equation also holds for every `(k, v)` that is already in the map of that
+particular state.  The two sides quantify over different states, hence the iff fails
+(`urlName_pure_original_false` below: `path = path' = "a"`, no extension, so nothing is published;
+`s.namesR = [("k","v")]` satisfies the left side by accident, `s'.namesR = []` cannot satisfy the
+right side).  The same accident happens when an extension is present (take
+`s.namesR = [(published, ident), (k, v)]`, `s'.namesR = []`).
+
+Honest formulation: `publishedName path bytes` is a function of the final path component and the
+content only (`publishedName_pure`), and it is exactly the key `addHashed` inserts, in any state,
+for any way of embedding the content (`addHashed_publishes`; nothing is inserted when it is `none`).
+-/
+
+/-- the URL name `add_file`/`add_file_data` publish for `path` with content `bytes` -/
+def publishedName (path bytes : Bytes) : Option Bytes := urlName (baseName path) bytes
+
+/-- the Rust identifier that goes with it -/
+def publishedIdent (ua : Nat → Bool) (path : Bytes) : Option Bytes :=
+  (nameAndExt (baseName path)).map fun (n, e) => mangle ua (n ++ [95] ++ e)
+
+/-- pure: same file name and same bytes ⇒ same published name (and identifier), from any location -/
+theorem publishedName_pure (ua : Nat → Bool) (path path' bytes : Bytes) (hb : baseName path = baseName path') :
+    publishedName path bytes = publishedName path' bytes ∧ publishedIdent ua path = publishedIdent ua path' := by
+  simp only [publishedName, publishedIdent, hb, and_self]
+
+/-- … in any handler state, through `add_file` (`.file`) or `add_file_data` (`.data`): the maps
+change by exactly the insertion of `publishedName` ↦ `publishedIdent` (and its converse) -/
+theorem addHashed_publishes (ue ua : Nat → Bool) (s : Statics) (path bytes : Bytes) (c : Content) :
+    (s.addHashed ue ua path bytes c).namesR =
+      (match publishedName path bytes, publishedIdent ua path with
+       | some k, some v => btInsert k v s.namesR
+       | _, _ => s.namesR) ∧
+    (s.addHashed ue ua path bytes c).names =
+      (match publishedName path bytes, publishedIdent ua path with
+       | some k, some v => btInsert v k s.names
+       | _, _ => s.names) := by
+  unfold publishedName publishedIdent urlName
+  cases h : nameAndExt (baseName path) with
+  | none => simp only [no_ext_skipped ue ua s path bytes c h, Option.map_none, and_self]
+  | some ne =>
+    obtain ⟨n, e⟩ := ne
+    obtain ⟨h1, h2⟩ := urlName_shape ue ua s path bytes c n e h
+    simp only [h1, h2, Option.map_some, and_self]
+
+/-- the same, as a statement about two runs: equal file names and bytes give equal maps when
+started from equal maps, whatever the directories and the embedding -/
+theorem urlName_pure (ue ua : Nat → Bool) (s s' : Statics) (path path' bytes : Bytes) (c c' : Content)
+    (hb : baseName path = baseName path') (hs : s.namesR = s'.namesR) :
+    (s.addHashed ue ua path bytes c).namesR = (s'.addHashed ue ua path' bytes c').namesR := by
+  rw [(addHashed_publishes ue ua s path bytes c).1, (addHashed_publishes ue ua s' path' bytes c').1,
+    (publishedName_pure ua path path' bytes hb).1, (publishedName_pure ua path path' bytes hb).2, hs]
+
+/-- counterexample to the original statement of `urlName_pure` -/
+theorem urlName_pure_original_false :
+    ¬ ∀ (ue ua : Nat → Bool) (s s' : Statics) (path path' bytes : Bytes) (c c' : Content)
+      (_ : baseName path = baseName path') (k : Bytes),
+      (∃ v, (s.addHashed ue ua path bytes c).namesR = btInsert k v s.namesR) ↔
+      (∃ v, (s'.addHashed ue ua path' bytes c').namesR = btInsert k v s'.namesR) := by
+  intro h
+  have h' := h (fun _ => false) (fun _ => false)
+    { feat := .off, src := [], names := [], namesR := [([107], [118])] }
+    { feat := .off, src := [], names := [], namesR := [] }
+    [97] [97] [] (.data []) (.data []) rfl [107]
+  have hn : nameAndExt (baseName [97]) = none := by decide
+  rw [no_ext_skipped _ _ _ _ _ _ hn, no_ext_skipped _ _ _ _ _ _ hn] at h'
+  obtain ⟨v, hv⟩ := h'.mp ⟨[118], by decide⟩
+  simp [btInsert] at hv
+
+-- tests (evaluated): RFC 1321 vectors and the documented example `black-r3rltVhW.css`
+#guard checksumSlug (str "body{color:black}\n") == str "r3rltVhW"
+#guard (md5 []).take 4 == [0xd4, 0x1d, 0x8c, 0xd9]
+#guard (md5 (str "abc")).take 4 == [0x90, 0x01, 0x50, 0x98]
+#guard (md5 (str "message digest")).take 4 == [0xf9, 0x6b, 0x69, 0x7d]
+#guard (md5 (str "12345678901234567890123456789012345678901234567890123456789012345678901234567890")).take 4 == [0x57, 0xed, 0xf4, 0xa2]
+
 end Ructe.C07
